@@ -4,6 +4,7 @@ import RpgpModel.Ops.C17
 import RpgpModel.Ops.C01
 import RpgpModel.Ops.C03
 import RpgpModel.Ops.C09
+import RpgpModel.Ops.C13
 /-!
 # Driver — `rpgp_model`: one request line in, one canonical answer line out.
 
@@ -13,7 +14,7 @@ Each property contributes a handler `Rpgp.Ops.Cxx.handle : String → Args → O
 open Rpgp
 
 def handlers : List (String → Args → Option String) :=
-  [Ops.C01.handle, Ops.C14.handle, Ops.C17.handle, Ops.C03.handle, Ops.C09.handle]
+  [Ops.C01.handle, Ops.C14.handle, Ops.C17.handle, Ops.C03.handle, Ops.C09.handle, Ops.C13.handle]
 
 def answer (line : String) : String :=
   match line.trimAscii.toString.splitOn " " with
